@@ -2,6 +2,8 @@ package main
 
 import (
 	"fmt"
+	"regexp"
+	"sort"
 	"go/token"
 	"go/types"
 	"strings"
@@ -32,11 +34,28 @@ func (vc *VC) safeTr(fr *Frame, f func() string, src string) (out string) {
 }
 
 func (vc *VC) runHints(fr *Frame, st *State, reach string, hints []*Hint, env *Env, where string) {
+	// definitions with pairwise (two-variable) quantifiers are revealed only until the next loop head is passed
+	defer func() { vc.emitScope = 0 }()
+	hasForget := false
+	for _, h := range hints {
+		if h.Kind == "forget" || h.Kind == "lassert" {
+			hasForget = true
+		}
+	}
+	blockScope := 0
+	if hasForget {
+		vc.uniqScope++
+		blockScope = 1000000 + vc.uniqScope
+		vc.extraScopes = append(vc.extraScopes, blockScope)
+		defer func() { vc.extraScopes = vc.extraScopes[:len(vc.extraScopes)-1] }()
+	}
 	for _, h := range hints {
 		h := h
 		e := env.with(st)
+		lineStart := len(vc.lines)
 		switch h.Kind {
-		case "assert":
+		case "assert", "lassert":
+			// lassert: a stepping stone; the established fact stays visible only inside this ghost block
 			g := vc.safeTr(fr, func() string { return e.trBool(h.E) }, h.Src)
 			label := h.Label
 			if label == "" {
@@ -53,16 +72,39 @@ func (vc *VC) runHints(fr *Frame, st *State, reach string, hints []*Hint, env *E
 				props = clauseProps(h.Props, vc.unitProps)
 			}
 			vc.oblige(name, "assert", props, reach, g, h.Src)
+			if h.Kind == "lassert" {
+				for i := lineStart; i < len(vc.lines) && i < len(vc.lineScope); i++ {
+					if strings.HasPrefix(vc.lines[i], "(assert") && vc.lineScope[i] == 0 {
+						vc.lineScope[i] = blockScope
+					}
+				}
+			}
 		case "assume":
 			g := vc.safeTr(fr, func() string { return e.trBool(h.E) }, h.Src)
 			vc.assumeG(reach, g)
 			vc.trusted["assume in "+vc.unit+" ("+where+"): "+h.Src] = true
 		case "unfold":
 			g := vc.safeTr(fr, func() string { return e.hintFormula(h.E, true) }, h.Src)
+			body := g
+			if strings.HasPrefix(body, "(forall") {
+				body = body[7:] // the hint's own quantifier does not count
+			}
+			if pairwiseRe.MatchString(body) {
+				vc.emitScope = vc.curScope + 1
+			}
 			vc.assumeG(reach, g)
+			vc.emitScope = 0
 		case "use", "useif":
 			g := vc.safeTr(fr, func() string { return e.useLemma(fr, reach, h, where) }, h.Src)
 			vc.assumeG(reach, g)
+		case "forget":
+			if fr != nil && fr.callLines[1] > fr.callLines[0] {
+				for i := fr.callLines[0]; i < fr.callLines[1] && i < len(vc.lineScope); i++ {
+					if strings.HasPrefix(vc.lines[i], "(assert") && strings.Contains(vc.lines[i], "(forall") {
+						vc.lineScope[i] = blockScope
+					}
+				}
+			}
 		case "let":
 			// a named abbreviation: a fresh constant equal to the expression's current value
 			var v Val
@@ -81,7 +123,9 @@ func (vc *VC) runHints(fr *Frame, st *State, reach string, hints []*Hint, env *E
 				v = e.trVal(h.E)
 			}()
 			if okv && v.S != "" {
-				v.S = vc.define("let_"+h.Name, vc.S.tySort(v.ty()), v.S)
+				if !(isInt(v.ty()) && len(v.S) < 80) {
+					v.S = vc.define("let_"+h.Name, vc.S.tySort(v.ty()), v.S)
+				}
 				if env.names == nil {
 					env.names = map[string]Val{}
 				}
@@ -108,6 +152,8 @@ func (vc *VC) runHints(fr *Frame, st *State, reach string, hints []*Hint, env *E
 		}
 	}
 }
+
+var pairwiseRe = regexp.MustCompile(`\((forall|exists) \(\([^ ]+ [^()]+\) \([^ ]+ [^()]+\)`)
 
 func (vc *VC) countHint(fr *Frame, where string) int {
 	if fr != nil {
@@ -441,6 +487,10 @@ func (vc *VC) frameCheck(fr *Frame, st *State, reach string, a *Addr, in ssa.Ins
 	if goal == "true" {
 		return
 	}
+	if top.frameAssumed {
+		vc.assumeG(reach, goal)
+		return
+	}
 	n := top.count("frame")
 	vc.oblige(top.oblName(fmt.Sprintf("frame#%d", n)), "frame", top.defProps(), reach, goal, "write outside the modifies clause at "+posOf(fr, in)+": "+in.String())
 }
@@ -631,7 +681,9 @@ func (vc *VC) execCall(fr *Frame, st *State, reach string, instr ssa.Instruction
 		vc.safety(fr, "nil", reach, "(not (= (i_typ "+vc.valTerm(recv)+") 0))", "method call on nil interface at "+pos)
 		vc.ghostPoint(fr, st, reach, "before", "call", n, common.Method.Name())
 		var res Val
-		if ms == nil {
+		if impls := vc.implsOf(common.Value.Type(), common.Method.Name()); ms == nil && len(impls) > 0 {
+			res = vc.applyDispatch(fr, st, reach, impls, recv, args, instr, resT, key, n)
+		} else if ms == nil {
 			vc.notes = append(vc.notes, fmt.Sprintf("%s: interface call %s without contract: everything reachable is havocked", fr.key, key))
 			vc.frameCheckAll(fr, st, reach, instr)
 			vc.havocAllForCall(fr, st, args)
@@ -982,7 +1034,9 @@ func (vc *VC) applySpec(fr *Frame, st *State, reach string, spec *FuncSpec, call
 				} else {
 					goal = vc.allowedWrite(top, t.heap, t.ref)
 				}
-				if goal != "true" {
+				if goal != "true" && top.frameAssumed {
+					vc.assumeG(reach, goal)
+				} else if goal != "true" {
 					n := top.count("frame")
 					vc.oblige(top.oblName(fmt.Sprintf("frame#%d", n)), "frame", top.defProps(), reach, goal, "callee "+key+" may write outside the caller's modifies clause at "+pos)
 				}
@@ -1050,11 +1104,13 @@ func (vc *VC) applySpec(fr *Frame, st *State, reach string, spec *FuncSpec, call
 		}
 	}
 	env2 := &Env{vc: vc, st: st, old: pre, names: post, hash: map[string]Val{}, paramsFirst: true, cloFn: env.cloFn, cloVal: env.cloVal, binds: env.binds}
+	ensStart := len(vc.lines)
 	for _, c := range spec.Ensures {
 		c := c
 		g := vc.safeTr(fr, func() string { return env2.trBool(c.E) }, c.Src)
 		vc.assumeG(reach, g)
 	}
+	fr.callLines = [2]int{ensStart, len(vc.lines)}
 	return res
 }
 
@@ -1155,7 +1211,9 @@ func (vc *VC) execAppend(fr *Frame, st *State, reach string, instr ssa.Instructi
 	top := fr.topFrame()
 	if top.modCheck {
 		goal := "(or (not " + inplace + ") " + vc.allowedWrite(top, hn, "(s_arr "+s+")") + ")"
-		if k != 0 {
+		if k != 0 && top.frameAssumed {
+			vc.assumeG(reach, goal)
+		} else if k != 0 {
 			n := top.count("frame")
 			vc.oblige(top.oblName(fmt.Sprintf("frame#%d", n)), "frame", top.defProps(), reach, goal, "append may write into a backing array outside the modifies clause at "+posOf(fr, instr))
 		}
@@ -1500,4 +1558,222 @@ func (vc *VC) fnHeaps(fr *Frame, fn *ssa.Function, depth int) (heaps []string, a
 		}
 	}
 	return sortedKeys(hset), false
+}
+
+// ---------------------------------------------------------------------------------------------
+// interface method calls by closed-world dispatch over the implementations in the repository
+// ---------------------------------------------------------------------------------------------
+
+type implSpec struct {
+	fn   *ssa.Function
+	spec *FuncSpec
+	recv types.Type // receiver type as stored in the interface (T or *T)
+}
+
+func (vc *VC) implsOf(iface types.Type, method string) []implSpec {
+	it, ok := under(iface).(*types.Interface)
+	if !ok {
+		return nil
+	}
+	key := typeKey(iface) + "." + method
+	if vc.P.implCache == nil {
+		vc.P.implCache = map[string][]implSpec{}
+	}
+	if r, ok := vc.P.implCache[key]; ok {
+		return r
+	}
+	var out []implSpec
+	for tp := range vc.P.repoPkgs {
+		if strings.HasSuffix(tp.Path(), "testutils") {
+			continue
+		}
+		sc := tp.Scope()
+		for _, name := range sc.Names() {
+			tn, ok := sc.Lookup(name).(*types.TypeName)
+			if !ok || tn.IsAlias() {
+				continue
+			}
+			if _, isIface := tn.Type().Underlying().(*types.Interface); isIface {
+				continue
+			}
+			for _, rt := range []types.Type{tn.Type(), types.NewPointer(tn.Type())} {
+				if !types.Implements(rt, it) {
+					continue
+				}
+				sel := vc.P.prog.MethodSets.MethodSet(rt).Lookup(tp, method)
+				if sel == nil {
+					sel = vc.P.prog.MethodSets.MethodSet(rt).Lookup(nil, method)
+				}
+				if sel == nil {
+					continue
+				}
+				fn := vc.P.prog.MethodValue(sel)
+				if fn == nil {
+					continue
+				}
+				// a value-receiver method is also in the pointer's method set through a wrapper: take the declared one
+				if fn.Synthetic != "" {
+					if _, isPtr := rt.(*types.Pointer); isPtr {
+						// *T holding a value-receiver method: use the underlying declared method
+						if decl := vc.P.prog.FuncValue(sel.Obj().(*types.Func)); decl != nil {
+							fn = decl
+						}
+					}
+				}
+				out = append(out, implSpec{fn: fn, spec: vc.P.specFor(vc.P.fnKeys[fn], ""), recv: rt})
+			}
+		}
+	}
+	sort.Slice(out, func(i, j int) bool { return typeKey(out[i].recv) < typeKey(out[j].recv) })
+	vc.P.implCache[key] = out
+	return out
+}
+
+func (vc *VC) applyDispatch(fr *Frame, st *State, reach string, impls []implSpec, recv Val, args []Val, instr ssa.Instruction, resT *types.Tuple, key string, ordinal int) Val {
+	pre := st.clone()
+	rv := vc.valTerm(recv)
+	pos := posOf(fr, instr)
+	type bound struct {
+		im    implSpec
+		guard string
+		names map[string]Val
+	}
+	var bs []bound
+	var guards []string
+	anyAll := false
+	for _, im := range impls {
+		g := fmt.Sprintf("(= (i_typ %s) %d)", rv, vc.S.typeID(im.recv))
+		guards = append(guards, g)
+		if im.spec == nil || im.spec.Inline {
+			anyAll = true
+			vc.notes = append(vc.notes, fmt.Sprintf("%s: dynamic dispatch of %s may reach %s, which has no contract (havoc)", fr.key, key, vc.P.fnKeys[im.fn]))
+			continue
+		}
+		vc.specsUsed[vc.P.fnKeys[im.fn]] = true
+		names := map[string]Val{}
+		// receiver as the method sees it
+		var rcv Val
+		declRecv := im.fn.Params[0].Type()
+		if _, isPtr := under(im.recv).(*types.Pointer); isPtr {
+			pv := Val{T: im.recv, S: "(i_val " + rv + ")"}
+			if _, declPtr := under(declRecv).(*types.Pointer); declPtr {
+				rcv = pv
+			} else {
+				rcv = vc.load(pre, pv, nil, "")
+			}
+		} else {
+			hn := vc.cellHeapName(im.recv)
+			rcv = Val{T: im.recv, S: "(select " + vc.heap(pre, hn) + " (i_val " + rv + "))"}
+		}
+		names[im.fn.Params[0].Name()] = rcv
+		for i, p := range im.fn.Params[1:] {
+			if i < len(args) {
+				names[p.Name()] = args[i]
+			}
+		}
+		if im.spec.ModAll {
+			anyAll = true
+		}
+		bs = append(bs, bound{im, g, names})
+	}
+	// closed world: the dynamic type is one of the repository's implementations
+	vc.assumeG(reach, "(or "+strings.Join(guards, " ")+" false)")
+	vc.trusted["closed-world dispatch of "+key+" over the implementations in the repository"] = true
+	// requires
+	for _, b := range bs {
+		env := &Env{vc: vc, st: pre, old: pre, names: b.names, hash: map[string]Val{}, paramsFirst: true}
+		for i, r := range b.im.spec.Requires {
+			if r.Free {
+				continue
+			}
+			r := r
+			name := r.Name
+			if name == "" {
+				name = fmt.Sprint(i + 1)
+			}
+			g := vc.safeTr(fr, func() string { return env.trBool(r.E) }, r.Src)
+			vc.oblige(fr.oblName(fmt.Sprintf("pre@%s#%d/%s", shortKey(vc.P.fnKeys[b.im.fn]), ordinal, name)), "pre", clauseProps(r.Props, fr.defProps()), "(and "+reach+" "+b.guard+")", g, "precondition of "+vc.P.fnKeys[b.im.fn]+" (dynamic dispatch) at "+pos+": "+r.Src)
+		}
+	}
+	// modifies
+	if anyAll {
+		vc.frameCheckAll(fr, st, reach, instr)
+		vc.havocForCall(fr, st, args, true)
+	} else {
+		for _, b := range bs {
+			env := &Env{vc: vc, st: pre, old: pre, names: b.names, hash: map[string]Val{}, paramsFirst: true}
+			var targets []modTarget
+			func() {
+				defer func() {
+					if r := recover(); r != nil {
+						if se, is := r.(specErr); is {
+							vc.specErrors = append(vc.specErrors, fmt.Sprintf("%s: modifies of %s: %s", fr.key, vc.P.fnKeys[b.im.fn], se.msg))
+							return
+						}
+						panic(r)
+					}
+				}()
+				targets = vc.modTargets(env, b.im.spec)
+			}()
+			for _, t := range targets {
+				switch {
+				case t.whole:
+					vc.havocHeap(st, t.heap)
+				case t.addr != nil && t.addr.Kind != aLocal:
+					nv := vc.fresh("m_"+mangle(t.heap), vc.S.sortOf(vc.addrType(t.addr)))
+					// the write only happens if this implementation is the one called
+					old := vc.load(st, Val{A: t.addr, T: types.NewPointer(vc.addrType(t.addr))}, nil, "")
+					vc.store(st, Val{A: t.addr, T: types.NewPointer(vc.addrType(t.addr))}, "(ite "+b.guard+" "+nv+" "+old.S+")")
+				case t.addr == nil:
+					h := vc.heap(st, t.heap)
+					es := strings.TrimSuffix(strings.TrimPrefix(vc.heapSort[t.heap], "(Array Int "), ")")
+					nv := vc.fresh("m_"+mangle(t.heap), es)
+					vc.setHeap(st, t.heap, "(ite (and "+b.guard+" (not (= "+t.ref+" 0))) (store "+h+" "+t.ref+" "+nv+") "+h+")")
+				}
+			}
+		}
+		na := vc.fresh("alloc", "Int")
+		vc.assume("(>= " + na + " " + st.alloc + ")")
+		st.alloc = na
+	}
+	ghostSet := map[string]bool{}
+	for _, b := range bs {
+		for _, m := range b.im.spec.Modifies {
+			if c, ok := m.(*Call); ok && c.Fun == "ghost" {
+				for _, a := range c.Args {
+					if id, ok := a.(*Ident); ok {
+						ghostSet[id.Name] = true
+					}
+				}
+			}
+		}
+	}
+	for _, g := range sortedKeys(ghostSet) {
+		if gv := vc.P.ghosts[g]; gv != nil && !gv.Const {
+			st.ghosts[g] = vc.fresh("g_"+g, vc.S.tySort(vc.tyOfTypeExprL(gv.Type, true)))
+		}
+	}
+	res := vc.freshResults(st, resT, shortKey(key))
+	for _, b := range bs {
+		post := map[string]Val{}
+		for k, v := range b.names {
+			post[k] = v
+		}
+		rn := vc.resultNames(b.im.spec, b.im.fn, resT.Len())
+		if resT.Len() == 1 && len(rn) >= 1 {
+			post[rn[0]] = res
+			post["result"] = res
+		} else {
+			for i := 0; i < resT.Len() && i < len(rn); i++ {
+				post[rn[i]] = res.Tup[i]
+			}
+		}
+		env2 := &Env{vc: vc, st: st, old: pre, names: post, hash: map[string]Val{}, paramsFirst: true}
+		for _, c := range b.im.spec.Ensures {
+			c := c
+			g := vc.safeTr(fr, func() string { return env2.trBool(c.E) }, c.Src)
+			vc.assumeG("(and "+reach+" "+b.guard+")", g)
+		}
+	}
+	return res
 }
